@@ -28,6 +28,7 @@ type Obligation struct {
 	Status  string // discharged | violated | unknown
 	Model   []ReplayVal
 	Prefix  []int
+	MapOrder int
 }
 
 type ReplayVal struct {
@@ -564,6 +565,7 @@ func (e *Exec) assertObl(c *Term, msg string) {
 		ob.Status = "violated"
 		ob.Model = e.model()
 		ob.Prefix = append([]int(nil), e.decisions...)
+		ob.MapOrder = e.mapOrder
 		e.stats.Violated++
 	default:
 		ob.Status = "unknown"
